@@ -260,12 +260,15 @@ def pull_path(ctx, job):
         else:
             items.append(('live-key-exists', 'C03/acknowledged-value-lost', in_src or in_dst, w3))
             if not refused[0]:
-                items.append(('live-key-exists-once', 'C03/key-duplicated', not (in_src and in_dst), w3))
+                # the copy a later read would be served from holds the last acknowledged write
                 where = w.dst.db.get(K) or w.src.db.get(K)
                 if where is not None:
                     items.append(('stored-value-is-last-write', 'C03/stored-value-is-not-the-last-acknowledged-write', X.bytes_eq(where[0], logical), w3))
-            if touched and not job.get('restore_fault'):
-                items.append(('touched-key-left-the-source', 'C03/key-still-on-source-after-pull', not in_src, w3))
+                if scan_state == 3:
+                    # once the source side has processed the key (its scan reached it) the key exists exactly once, on the
+                    # destination; before that a transient second copy on the source is not excluded by the statement
+                    items.append(('live-key-exists-once', 'C03/key-duplicated', not (in_src and in_dst), w3))
+                    items.append(('scanned-key-left-the-source', 'C03/key-still-on-source-after-scan', not in_src, w3))
         ctx.require_all(e, items)
         ctx.sample({'scenario': 'pull path %s %s' % (job['initial'], '+'.join(ops)), 'trace': list(w.trace), 'src_has_key': in_src, 'dst_has_key': in_dst})
         return len(ops)
